@@ -49,7 +49,7 @@ def main() -> int:
 
     # a stored change is tried against its own property's check; where DESIGN.md 9.7 names another check as the one
     # that decides it, that check is tried as well
-    also = {"C12E": ["C17"]}
+    also = {"C12E": ["C17"], "C12G": ["C07"], "C12H": ["C02"]}
 
     def one(seed: str):
         res = None
